@@ -35,12 +35,16 @@ class Engine(Interp):
         for fr in st.frames.values():
             for v in fr.values():
                 scan(v)
+        for o in st.keep:
+            if o in st.objs and o not in seen:
+                seen.add(o)
+                work.append(o)
         while work:
             o = work.pop()
             if o in st.objs:
                 scan(st.objs[o])
         for o in list(st.objs):
-            if o not in seen:
+            if o not in seen and o not in st.keep:
                 del st.objs[o]
 
     def canonicalise(self, st, tag):
@@ -123,7 +127,8 @@ class Engine(Interp):
             ms.extras = tuple(pos(h) for h in ms.extras)
             ms.hole_rng = (pos(ms.hole_rng[0]), pos(ms.hole_rng[1]))
             ms.extra_rng = (pos(ms.extra_rng[0]), pos(ms.extra_rng[1]))
-            ms.contents = tuple((pos(i), cw(t)) for (i, t) in ms.contents)
+            # value tags are relative to the last loop head (or the root entry): forget overrides
+            ms.contents = ()
             if ms.examined is not None:
                 ms.examined = (cw(ms.examined[0]), pos(ms.examined[1]), pos(ms.examined[2]))
         # zone: move the old names out of the way, tie the canonical names to them, project
@@ -228,6 +233,11 @@ class Engine(Interp):
         while work:
             bi, s = work.pop()
             if bi in heads:
+                live_in, borrowed = body.liveness()
+                fr = s.frames[fid]
+                for l in [l for l in fr if l >= 0 and l > body.arg_count and l not in live_in[bi]
+                          and l not in borrowed]:
+                    del fr[l]
                 s = self.loop_join(table, (fid, bi), s)
                 if s is None:
                     continue
@@ -416,8 +426,65 @@ class Engine(Interp):
             self.stats['model_calls'] += 1
             return m(self, st, fid, t, args, dest_ty)
         if callee['resolved'] == 'unresolved':
+            r = self.dispatch_by_value(st, fid, t, args, dest_ty)
+            if r is not None:
+                return r
             return self.user_call(st, fid, t, args, dest_ty)
         return self.opaque_call(st, fid, t, args, dest_ty)
+
+    def dispatch_by_value(self, st, fid, t, args, dest_ty):
+        """a trait-method call that is unresolved in the (generic) MIR of an inlined callee, but
+        whose receiver is, in this inlining context, a value of a known type"""
+        callee = t['callee']
+        tr = callee.get('trait')
+        nm = callee['name']
+        if not args:
+            return None
+        recv = args[0]
+        target = recv
+        byref = False
+        if recv[0] == 'ref' and recv[2][0] in ('L', 'O'):
+            try:
+                target = self.load(st, recv[2])
+                byref = True
+            except Unproven:
+                return None
+        path = None
+        if target[0] == 'adt':
+            path = target[1]
+        elif target[0] == 'map':
+            path = st.maps[target[1]].name
+        elif target[0] == 'sliceit':
+            path = SLICE_ITERMUT if target[4] else SLICE_ITER
+        if path is None:
+            return None
+        is_iter = (path in self.models_mod.ADAPTER_NEXT or (ITER_TRAIT, path, 'next') in self.impl_index
+                   or target[0] == 'sliceit')
+        if tr == 'core::iter::traits::collect::IntoIterator' and nm == 'into_iter':
+            if is_iter and not byref:
+                return [('ret', st, recv)]
+            key = (tr, ('&' + path) if byref else path, 'into_iter')
+            bid = self.impl_index.get(key)
+            if bid is not None:
+                body = self.facts.bodies[bid]
+                return self.call_local(st, bid, args, self.gs_from_value(st, target, body))
+            return None
+        if tr == ITER_TRAIT and nm == 'next' and byref and is_iter:
+            ity = None
+            if dest_ty and dest_ty.get('k') == 'adt' and dest_ty['args']:
+                ity = dest_ty['args'][0]
+            return self.iter_next(st, recv[2], fid, ity)
+        if tr == ITER_TRAIT and is_iter:
+            m = self.models.get(ITER_TRAIT + '::' + nm)
+            if m is not None:
+                t2 = dict(t)
+                t2['callee'] = dict(callee, resolved='item')
+                return m(self, st, fid, t2, args, dest_ty)
+        bid = self.impl_index.get((tr, ('&' + path) if byref and (tr, '&' + path, nm) in self.impl_index else path, nm))
+        if bid is not None and tr is not None:
+            body = self.facts.bodies[bid]
+            return self.call_local(st, bid, args, self.gs_from_value(st, target, body))
+        return None
 
     def gs_of(self, st, fid):
         return st.fmeta[fid][1] if fid in st.fmeta else {}
@@ -427,8 +494,10 @@ class Engine(Interp):
         if not isinstance(v, tuple) or not v or depth > 6:
             return False
         h = v[0]
-        if h in ('sliceit', 'map', 'mu_val', 'pairs_val', 'slice_val'):
+        if h in ('sliceit', 'mu_val', 'pairs_val', 'slice_val'):
             return True
+        if h == 'map':
+            return depth > 0
         if h == 'ref':
             p = v[2]
             if p[0] in ('mu', 'pairs', 'slice', 'len'):
@@ -443,8 +512,6 @@ class Engine(Interp):
             return any(self.sensitive(st, x, depth + 1) for x in v[1])
         if h == 'adt':
             return any(self.sensitive(st, x, depth + 1) for x in v[3])
-        if h == 'closure':
-            return any(self.sensitive(st, x, depth + 1) for x in v[2])
         return False
 
     def find_closures(self, st, v, acc, depth=0):
@@ -491,6 +558,7 @@ class Engine(Interp):
         st.log('user', callee['def'], tuple(self.tag_of(a) for a in args))
         self.stats['user_calls'] += 1
         self.havoc_mut_refs(st, args)
+        self.give_away(st, args, nm)
         out = []
         gs = self.gs_of(st, fid)
         if cls:
@@ -511,6 +579,33 @@ class Engine(Interp):
             val = self.mk_unknown(s, dest_ty, ('u', callee['def'], tuple(self.tag_of(a) for a in args)), gs)
             out.append(('ret', s, val))
         return out
+
+    def give_away(self, st, args, nm):
+        """containers passed by value to user code: they must be well-formed at that moment"""
+        for a in args:
+            for v in self.byvalue_maps(a):
+                ms = st.maps[v]
+                if ms.dead:
+                    continue
+                probs = slots.inv_problems(st, v)
+                self.oblig('INV', not probs, 'pass-to-user',
+                           '; '.join('%s: %s' % p for p in probs) + ' [%s]' % ms.describe(), 'refuted',
+                           sample='%s %s' % (v, ms.describe()))
+                ms.dead = True
+
+    def byvalue_maps(self, v, depth=0, acc=None):
+        if acc is None:
+            acc = []
+        if isinstance(v, tuple) and v and depth < 8:
+            if v[0] == 'map':
+                acc.append(v[1])
+            elif v[0] == 'adt':
+                for x in v[3]:
+                    self.byvalue_maps(x, depth + 1, acc)
+            elif v[0] == 'tuple':
+                for x in v[1]:
+                    self.byvalue_maps(x, depth + 1, acc)
+        return acc
 
     def check_exposed(self, st, args, nm):
         """raw slot storage handed to code that has no model: fail closed"""
@@ -679,14 +774,8 @@ class Engine(Interp):
         for kind, s, _ in self.call_local(st, bid, [('ref', True, ('O', oid, ()))], gs):
             m2 = s.maps[mid]
             if kind == 'ret':
-                z = s.zone
-                lo, hi = m2.hole_rng
-                allgone = (z.entails_eq(lo, 0) and z.entails_eq(hi, m2.len) and not m2.holes) \
-                    or z.entails_eq(m2.len, 0)
-                noextra = not m2.extras and slots.empty(z, m2.extra_rng)
-                self.oblig('DROPALL', allgone and noextra, 'Map::drop',
-                           'Drop for the container does not destroy exactly its live elements: %s'
-                           % m2.describe(), 'unproven', sample=m2.describe())
+                from .roots import check_dropall
+                check_dropall(self, s, mid, 'Map::drop')
             m2.dead = True
             s.objs.pop(oid, None)
             out.append((kind, s))
@@ -734,12 +823,12 @@ class Engine(Interp):
         return acc
 
     # iterators ------------------------------------------------------------------------------
-    def iter_next(self, st, ptr, fid):
+    def iter_next(self, st, ptr, fid, item_ty=None):
         """advance the iterator stored at ptr: list of (kind, state, Option value)"""
         v = self.load(st, ptr)
         h = v[0]
         if h == 'ref':
-            return self.iter_next(st, v[2], fid)
+            return self.iter_next(st, v[2], fid, item_ty)
         if h == 'sliceit':
             _, mid, fr, bk, mut = v
             z = st.zone
@@ -758,7 +847,7 @@ class Engine(Interp):
             path = v[1]
             m = self.models_mod.ADAPTER_NEXT.get(path)
             if m is not None:
-                return m(self, st, ptr, v, fid)
+                return m(self, st, ptr, v, fid, item_ty)
             bid = self.impl_index.get((ITER_TRAIT, path, 'next'))
             if bid is not None:
                 body = self.facts.bodies[bid]
@@ -777,9 +866,8 @@ class Engine(Interp):
                 out.append(('unwind', u, None))
             a = st.fork()
             a.log('next', self.tag_of(v), 'Some')
-            item_ty = None
-            if h == 'opqit':
-                item_ty = v[2] if len(v) > 2 else None
+            if h == 'opqit' and len(v) > 2 and v[2] is not None:
+                item_ty = v[2]
             item = self.mk_unknown(a, item_ty, ('item', self.tag_of(v)), self.gs_of(st, fid))
             out.append(('ret', a, some(item)))
             st.log('next', self.tag_of(v), 'None')
